@@ -113,6 +113,17 @@ add_declaration(CPPDeclaration *decl, CPPScope *global_scope,
                 CPPPreprocessor *preprocessor, const cppyyltype &pos) {
   decl->_vis = _current_vis;
 
+  // The definition of a member class that was declared in its class with a
+  // narrower access than this scope has (see define_extension_type()) keeps
+  // that access.
+  CPPTypeDeclaration *type_decl = decl->as_type_declaration();
+  if (type_decl != nullptr && type_decl->_type != nullptr &&
+      type_decl->_type->as_extension_type() != nullptr &&
+      type_decl->_type->_vis != V_unknown &&
+      type_decl->_type->_vis > decl->_vis) {
+    decl->_vis = type_decl->_type->_vis;
+  }
+
   // Get the recent comments from the preprocessor.  These are the comments
   // that appeared preceding this particular declaration; they might be
   // relevant to the declaration.
@@ -260,6 +271,12 @@ define_extension_type(CPPExtensionType *type, CPPPreprocessor *error_sink) {
         }
       }
       (*result.first).second = type;
+
+      if (_struct_type != nullptr) {
+        // A member class keeps the access it was declared with in its class,
+        // also when it is defined outside of it.
+        type->_vis = other_ext->_vis;
+      }
 
     } else {
       CPPTypedefType *other_td = other_type->as_typedef_type();
